@@ -95,7 +95,7 @@ class PDU:
         """
         for (offset, length), attr_name, func, args in self._decoders:
             # Allow us to use None as a `length`
-            if length:
+            if length is not None:
                 sl = slice(offset, offset + length)
             else:
                 sl = slice(offset, None)
